@@ -131,7 +131,9 @@ func VerifyDataDirChecksums(dataDir string) (*DataDirChecksumResult, error) {
 		}
 		
 		for _, f := range files {
-			if f.IsDir() {
+			// Relation files are regular files (pg_checksums tests S_ISREG the same way);
+			// reading a FIFO or a device named like one would block or never end
+			if !f.Type().IsRegular() {
 				continue
 			}
 			
